@@ -24,6 +24,24 @@
 using namespace iora::network;
 using Clock = std::chrono::steady_clock;
 
+// ---- fault/pause plan at the system-call boundary: stall the I/O thread inside its next getpeername() --------------------
+// (the call the engine makes to decide that a non-blocking connect has completed; defined here = symbol interposition).
+// With a short engine connectTimeout the connect timer then fires WHILE the completion is being decided, and its Close
+// command is processed right after the session became established: the engine must recognise it as stale.
+#include <dlfcn.h>
+static std::atomic<int> g_stallGpMs{0};
+extern "C" int getpeername(int fd, struct sockaddr *addr, socklen_t *len)
+{
+  static auto real = (int (*)(int, struct sockaddr *, socklen_t *))dlsym(RTLD_NEXT, "getpeername");
+  int ms = g_stallGpMs.exchange(0);
+  if (ms > 0)
+  {
+    struct timespec ts = {ms / 1000, (long)(ms % 1000) * 1000000L};
+    nanosleep(&ts, nullptr);
+  }
+  return real(fd, addr, len);
+}
+
 static int listenOn(std::uint16_t &port, int backlog)
 {
   int fd = socket(AF_INET, SOCK_STREAM, 0);
@@ -127,6 +145,8 @@ static std::string runOne(const std::vector<std::string> &ops)
       for (int c : conns) close(c);
     });
   TransportConfig cfg;
+  for (auto &o : ops)
+    if (o.rfind("ct:", 0) == 0) cfg.connectTimeout = std::chrono::milliseconds(atoi(o.c_str() + 3)); // engine connect timer
   auto t = Transport::tcp(cfg);
   t->onConnect([&](SessionId s, const TransportAddress &) { tr.add(vf::Ev("Global").str("cb", "connect").i("s", (long long)s)); });
   t->onClose([&](SessionId s, const TransportErrorInfo &) { tr.add(vf::Ev("Global").str("cb", "close").i("s", (long long)s)); });
@@ -158,6 +178,7 @@ static std::string runOne(const std::vector<std::string> &ops)
     bool live = false;
     if (r.isOk() && kind == "accept")
     {
+      std::this_thread::sleep_for(std::chrono::milliseconds(60)); // (anything the engine still had queued for this session has run)
       int before = tg.sawData.load();
       std::uint8_t b[4] = {1, 2, 3, 4};
       t->send(r.value(), iora::core::BufferView{b, 4});
@@ -179,6 +200,17 @@ static std::string runOne(const std::vector<std::string> &ops)
   };
   for (auto &o : ops)
   {
+    if (o.rfind("ct:", 0) == 0) continue;
+    if (o.rfind("stallgp:", 0) == 0)
+    {
+      g_stallGpMs = atoi(o.c_str() + 8);
+      continue;
+    }
+    if (o.rfind("wait:", 0) == 0)
+    {
+      std::this_thread::sleep_for(std::chrono::milliseconds(atoi(o.c_str() + 5)));
+      continue;
+    }
     if (o.rfind("par:", 0) == 0)
     {
       std::vector<std::thread> th;
